@@ -100,7 +100,7 @@ CLAIMS.update({
                   "cells never change) for the whole evaluator; end to end through `evalStmts`: `alias_mutation_visible` (after `b := a` an update "
                   "through `b` is read through `a`, `a === b`, nothing else changes), `copy_mutation_invisible` for the four builders, "
                   "`scalar_copy_independent`, `argument_alias` / `argument_rebind_local`, `opassign_rebinds_not_mutates`. Tie + Python reference with object identity, breadth-first over distinct heap "
-                  "shapes of alias/copy/mutate/observe histories.",
+                  "shapes of alias/copy/mutate/observe histories. Extension C05x: `self_store_is_alias` (a container stored into its own slot is stored as itself), `builders_fresh_even_when_empty` (every building form allocates a new cell also when the result is empty).",
              ref="§6 C05", technique="Lean 4 frame/freshness theorems + heap-shape-exhaustive history correspondence + Python identity oracle"),
  "C06": dict(text="Lean theorems: `arith` is exact on Int ∩ i64 or reports IntOverflow (iff), division/remainder law and signs, comparisons "
                   "agree with order, literal value and 2^63 boundary, `_` separators ignored, range spec, op-assign = assign for any "
@@ -174,7 +174,7 @@ CLAIMS.update({
                   "context rejects the other kinds; the operand-kind arms of `apply_binary_operation`, `eq` and `ref_eq` are read off the "
                   "source on every run and are exactly the documented domain (`source_arms_are_the_documented_domain`, "
                   "`model_domain_is_source_domain`; a guard or any unrecognised arm shape is an extraction error). Tie + oracle: the full finite matrix operator × kind × kind (plain and op-assign) × contexts, "
-                  "run exhaustively in both tiers against an independently transcribed table.",
+                  "run exhaustively in both tiers against an independently transcribed table. Extension C16x: `range_assign_rhs_kinds` (the right-hand side of a range assignment: every kind but list and string is the type error whatever its size, before the bounds are evaluated), `ref_eq_kinds`.",
              ref="§6 C16", technique="Lean 4 case-analysis theorems over operator×kind matrix + decide-theorems over extracted type-name tables + exhaustive matrix correspondence"),
  "C18": dict(text="Lean theorems: the scanner's position after k characters is `posOf src k` (lines from 1, columns count characters, a "
                   "newline is column 0 of the next line), every token start and every lexical-error position is `posOf` of the offending "
